@@ -569,9 +569,19 @@ def _all_case(ctx, k, malformed=False):
     flags = {}
     # --- the calls the code made, against the composition the model prescribes
     n_sel = len(sel)
-    flags["svd_calls"] = consistent and len(sp.svd) == nf * (1 + n_sel) and all(c[1] == () and c[2] == {} for c in sp.svd) and len(svd_tab) <= nf
+    # (the calls are bound through the callee's signature: positional / keyword spelling, explicitly written defaults and how
+    # often a pure routine is evaluated on the same argument are the implementation's business)
+    import inspect
+
+    def bound(fn, args, kw):
+        ba = inspect.signature(fn).bind(*args, **kw)
+        ba.apply_defaults()
+        return ba.arguments
+
+    flags["svd_calls"] = consistent and len(svd_tab) <= nf
     fc = sp.fdd_calls
-    flags["first_stage_call"] = len(fc) == 1 and len(fc[0][0]) == 4 and list(fc[0][1]) == ["DF"] and fc[0][1]["DF"] == DF1 and list(fc[0][0][3]) == list(sel)
+    b0 = bound(sp.saved[5], fc[0][0], fc[0][1]) if len(fc) >= 1 else {}
+    flags["first_stage_call"] = len(fc) == 1 and b0.get("DF") == DF1 and list(b0.get("sel_freq", [])) == list(sel)
     first = out["first"]
     Fn1, Phi1 = fc[0][2]
     flags["first_stage"] = (
@@ -580,11 +590,13 @@ def _all_case(ctx, k, malformed=False):
         and all(m_["phi"] is not None and np.abs(np.array([cfl(z) for z in m_["phi"]]) - Phi1[:, i]).max() <= 1e-12 for i, m_ in enumerate(first))
     )
     bc = sp.bell_calls
+    bb = [bound(sp.saved[6], c[0], c[1]) for c in bc]
     flags["bell_calls"] = len(bc) == n_sel and all(
-        len(c[0]) == 4 and c[0][1] == dt and c[0][2] == sel[i] and np.array_equal(c[0][3], Phi1[:, i])
-        and c[1] == {"method": method, "cm": cm, "MAClim": MAClim, "DF": DF2} for i, c in enumerate(bc))
-    flags["ifft_calls"] = len(sp.ifft) == n_sel and all(c[1] == () and c[2] == {"n": nI, "axis": 0, "norm": "ortho"} and c[0].shape == (nf,) for c in sp.ifft)
-    flags["fit_calls"] = len(sp.fit) == n_sel and all(np.array_equal(c[0], np.arange(npmax)) and c[3] == () and c[4] == {} for c in sp.fit)
+        b["dt"] == dt and b["sel_fn"] == sel[i] and np.array_equal(b["phi_FDD"], Phi1[:, i])
+        and (b["method"], b["cm"], b["MAClim"], b["DF"]) == (method, cm, MAClim, DF2) for i, b in enumerate(bb))
+    bi = [bound(sp.saved[3], (c[0],) + tuple(c[1]), c[2]) for c in sp.ifft]
+    flags["ifft_calls"] = len(sp.ifft) == n_sel and all(b["n"] == nI and b["axis"] in (0, -1) and b["norm"] == "ortho" and c[0].shape == (nf,) for b, c in zip(bi, sp.ifft))
+    flags["fit_calls"] = len(sp.fit) == n_sel and all(np.array_equal(c[0], np.arange(npmax)) for c in sp.fit)
     # --- results
     modes = out["modes"]
     flags["count"] = len(modes) == n_sel and np.shape(Fn) == (n_sel, 1) or np.shape(Fn) == (n_sel,)
